@@ -9,7 +9,7 @@ w="$1"; K="$2"; shift 2
 props="$*"; [ -z "$props" ] && props=$(ls /tmp/mut$w/out)
 cd /verif
 mkdir -p .build/confirm$w
-list=/verif/.build/wave${w}_list.txt; : > $list
+list=/verif/.build/wave${w}_list_$$.txt; : > $list
 for id in $props; do
   src=/tmp/mut$w/out/$id; dst=/verif/seeded/_incoming$w/$id; mkdir -p "$dst"
   cp "$src"/change_?.diff "$src"/demo_?.rs "$src"/change_?.md "$dst"/ 2>/dev/null
@@ -19,16 +19,16 @@ for id in $props; do
   done
 done
 # confirmations, 6 at a time
-cat $list | xargs -P 6 -L 1 bash -c '/verif/lib/confirm_seeded.sh $(dirname $1) $3 /verif/.build/confirm'$w' >/dev/null 2>&1' _
+cat $list | xargs -P 6 -L 1 bash -c '/verif/lib/confirm_seeded.sh $(dirname $2) $4 /verif/.build/confirm'$w' >/dev/null 2>&1' _
 for k in $(seq 0 $((K-1))); do
   (
-    root=/tmp/par/$k
+    root=/tmp/par/$$-$k
     rm -rf $root; mkdir -p $root
     git -C /repo worktree add -q --detach $root/repo HEAD && cp /repo/Cargo.lock $root/repo/
     rsync -a --exclude .build --exclude .git --exclude replays /verif/ $root/verif/
     sed -i "s#path = \"/repo\"#path = \"$root/repo\"#" $root/verif/harness/Cargo.toml
     sed -i "s#^REPO = \"/repo\"#REPO = \"$root/repo\"#" $root/verif/check
-    out=/verif/.build/par_results_w${w}_$k.txt; : > $out
+    out=/verif/.build/par_results_w${w}_$$_$k.txt; : > $out
     i=0
     while read -r wave patch id n; do
       if [ $((i % K)) -eq $k ]; then
@@ -49,6 +49,6 @@ for k in $(seq 0 $((K-1))); do
   ) &
 done
 wait
-cat /verif/.build/par_results_w${w}_*.txt > /verif/.build/mutant_results$w.txt
+cat /verif/.build/par_results_w${w}_$$_*.txt >> /verif/.build/mutant_results$w.txt
 for f in /verif/.build/confirm$w/*.result; do echo "CONFIRM $(cut -c1-400 $f)"; done > /verif/.build/wave${w}_confirm.txt
 echo "WAVE-PAR-DONE $(grep -c ^MUTANT /verif/.build/mutant_results$w.txt)"
